@@ -56,7 +56,13 @@ void __gmpz_init(mpz_m *z) {
   __CPROVER_assume(gmp_n < GMP_MODEL_N);
   z->f0 = (uint32_t)gmp_n; gmp_val[gmp_n] = 0; gmp_n++; z->f1 = 0; z->f2 = 0;
 }
+#ifdef GMP_MODEL_LIFO_CLEAR
+/* opt-in (c_defines): clearing the most recently initialised object gives its slot back, so that the slot counter stays
+ * a constant across branches that create and destroy temporaries (mpz_class expression temporaries die in LIFO order) */
+void __gmpz_clear(mpz_m *z) { if ((int)z->f0 == gmp_n - 1 && gmp_n > 1) { gmp_n--; z->f0 = 0; } }
+#else
 void __gmpz_clear(mpz_m *z) { (void)z; }
+#endif
 void __gmpq_init(mpq_m *q) { __gmpz_init(&q->f0); __gmpz_init(&q->f1); gz_put(&q->f1, 1); }
 void __gmpq_clear(mpq_m *q) { (void)q; }
 void __gmpz_set(mpz_m *r, mpz_m *a) { gz_put(r, gz_get(a)); }
